@@ -149,9 +149,11 @@ PROPS['C18'] = P(
              'panics inside code the model does not cover (Bevy internals) can only be exhibited by the harness (catch_unwind)',
              'payload release for stale targets is C05 (correspondence + m_payloads monitor)'])
 PROPS['C02'] = P(
-    ['runner_invariant', 'root_frame_leaves_nothing', 'trees_run_to_completion', 'postponed_only_for_active', 'every_event_carrying_command_is_resolved_exactly_once'],
+    ['runner_invariant', 'root_frame_leaves_nothing', 'trees_run_to_completion', 'postponed_only_for_active', 'every_event_carrying_command_is_resolved_exactly_once',
+     'unticketed_commands_resolved_exactly_once', 'unticketed_balance_everywhere', 'an_unticketed_command_is_noted_when_applied',
+     'an_itemless_claim_is_the_setup_of_an_unticketed_command'],
     ['recursion', 'mixed', 'stale'], 'runs', determined=True,
-    assumes=['exactly-once is a theorem for every command that parks event data (unique ticket: set up exactly once, by its run or by the abort path); for plain system commands (no ticket) and for termination it rests on the correspondence (runner event sink) and the m_runs monitor'])
+    assumes=['exactly-once is a theorem for every command that parks event data (unique ticket: set up exactly once, by its run or by the abort path) and, in counting form per target system, for the commands that draw no ticket (plain system commands, resource reactions: applied = set up over the whole run); the count of start / abort lines of the event log and termination rest on the correspondence (runner event sink) and the m_runs monitor'])
 MANIFEST_TEXT['C11'] = (
  "Machine-checked: for every program and every sequence of trees, when a top-level operation returns the tree counter is 0, the postponed-command buffer is empty, every system command has its callback back, all four trackers have no pending metadata and no reacting flag, and the despawn tracker holds no handle (run_quiescent_full), from two invariants proved for every interpreter instruction with a ghost calling context (exec_runner, exec_ticket). Tied to /repo by differential runs comparing the bookkeeping snapshot (hook) after every top-level op, plus the m_quiescent monitor on implementation logs.",
  "Trusted: Coq kernel; model faithfulness (differential); Bevy semantics as modelled. Absence of leftover data entities and history-independence are not theorems yet (snapshot data=0 compared on every run).",
@@ -161,8 +163,8 @@ MANIFEST_TEXT['C18'] = (
  "Trusted: as C11. Stuck 4 (B0003) is excluded by the generator's spawn_first rule; panics in unmodelled Bevy code can only be seen by the harness.",
  "Coq proof (never-Stuck corollary of the tracker invariant) + fault-style differential runs + monitors", "DESIGN.md §5 C18")
 MANIFEST_TEXT['C02'] = (
- "Machine-checked for every program: the runner's stack/buffer/counter invariant (exec_runner) — commands are postponed only for targets whose frame is active, every buffer entry targets an active frame, at a root frame the buffer is already empty before the discard loop, and when the outermost flush returns nothing is unresolved (trees_run_to_completion); over a whole run every command that parked event data was set up exactly once, by its run or by the abort path (tickets of claims = tickets of parked commands, pairwise distinct). Exactly-once for plain system commands (which carry no ticket) and termination are partial: checked by the correspondence on the runner event stream (hook 2) and by the m_runs monitor.",
- "Trusted: as C11. Partial: exactly-once for ticket-less system commands and termination are not theorems.",
+ "Machine-checked for every program: the runner's stack/buffer/counter invariant (exec_runner) — commands are postponed only for targets whose frame is active, every buffer entry targets an active frame, at a root frame the buffer is already empty before the discard loop, and when the outermost flush returns nothing is unresolved (trees_run_to_completion); over a whole run every command that parked event data was set up exactly once, by its run or by the abort path (tickets of claims = tickets of parked commands, pairwise distinct); for the commands that draw no ticket (plain system commands, resource-mutation reactions) the counting form holds per target system: as many were set up, by run or abort path, as were applied (a balance applied - set up - waiting-in-the-buffer proved by induction over the interpreter). Termination is not a theorem (fuel); the start / abort lines of the runner event stream are compared by the correspondence (hook 2) and checked by the m_runs monitor.",
+ "Trusted: as C11. Termination is not a theorem (executions that run out of fuel are excluded by the statements).",
  "Coq proof (runner invariant with ghost context) + model/implementation correspondence on runner events + monitor", "DESIGN.md §5 C02")
 
 PROPS['C10'] = P(
